@@ -101,3 +101,22 @@ def tally(R, b, tag):
             kinds.add('ecp' if 'electron_shells' in el else 'ecp-only')
     for k in kinds:
         R.count('%s:%s' % (tag, k))
+
+
+def shared_facts(el_or_basis):
+    """(shared_prims, shared_nonidentical): two same-momentum shells of an element share an exponent value; and the
+    one-primitive shells made from them would differ (spelling, region or function type) so that exact de-duplication keeps both"""
+    els = el_or_basis['elements'].values() if 'elements' in el_or_basis else [el_or_basis]
+    shared = nonid = False
+    for el in els:
+        vals = {}
+        for sh in el.get('electron_shells', []):
+            for x in sh['exponents']:
+                k = (tuple(sh['angular_momentum']), frac(x))
+                me = (x, sh.get('region'), sh.get('function_type'))
+                if k in vals:
+                    shared = True
+                    if me not in vals[k]:
+                        nonid = True
+                vals.setdefault(k, set()).add(me)
+    return shared, nonid
